@@ -1089,6 +1089,48 @@ def check_c17(idx: Index, tier: str, res: Result) -> None:
         c.args and isinstance(c.args[0], ast.Name) and c.args[0].id == "session_state" for c in setst), recon.loc(), recon.qual,
         "_set_state(session_state)", "the restored session state is not installed", key="WIRING/reconstruct_instance/_set_state")
 
+    # the timeout travels through the external state unchanged (an externalised instance is restored with the timeout it was started with)
+    ADAPTER = "BPTK_Py/externalstateadapter/externalStateAdapter.py"
+    nad = 0
+    for cname, ci_ in idx.module(ADAPTER).classes.items():
+        if "_save_instance" not in ci_.methods or "_load_instance" not in ci_.methods:
+            continue
+        sv = ci_.methods["_save_instance"][-1]
+        if any(isinstance(d, ast.Name) and d.id == "abstractmethod" for d in sv.node.decorator_list):
+            continue
+        sp = params(sv.node)[1]
+        recs = [(k, v) for d in ast.walk(sv.node) if isinstance(d, ast.Dict) for k, v in zip(d.keys, d.values) if const_str(k) == "timeout"]
+        if not recs:
+            raise AnalysisError("%s._save_instance: no 'timeout' field in the saved record" % cname)
+        for k, v in recs:
+            nad += 1
+            inner = v.args[0] if isinstance(v, ast.Call) and call_name(v) in ("dict", "copy", "deepcopy") and len(v.args) == 1 else v
+            trunc = [a for a in ast.walk(v) if isinstance(a, ast.Attribute) and a.attr in ("seconds", "days", "microseconds")]
+            if src(inner) == "%s.timeout" % sp:
+                ok, why = True, ""
+            elif trunc:
+                ok, why = False, ("the saved timeout is rebuilt from %s: timedelta.%s is one component of the duration (days and the other "
+                                  "units are dropped), so an instance restored from the external state expires after a different time than the "
+                                  "one it was started with" % (src(trunc[0]), trunc[0].attr))
+            elif any(isinstance(a, ast.Call) and call_name(a) == "total_seconds" for a in ast.walk(v)):
+                ok, why = True, ""
+            else:
+                raise AnalysisError("%s._save_instance: unrecognised timeout expression %s" % (cname, src(v)[:60]))
+            res.check("WIRING", "%s saves the instance's timeout unchanged" % cname, ok, sv.loc(v), sv.qual, src(v)[:80], why,
+                      key="WIRING/%s._save_instance/timeout-%s" % (cname, "truncated" if trunc else "changed"))
+        ld = ci_.methods["_load_instance"][-1]
+        rd = [n for n in walk_no_nested(ld.node) if isinstance(n, ast.Assign) and isinstance(n.targets[0], ast.Name) and n.targets[0].id == "timeout"]
+        ok = bool(rd) and all(_last_key(n.value) == "timeout" for n in rd)
+        nad += 1
+        res.check("WIRING", "%s loads the timeout from the 'timeout' field" % cname, ok, ld.loc(rd[0]) if rd else ld.loc(), ld.qual,
+                  norm_stmt(rd[0])[:90] if rd else "", "the restored timeout is read from %s" % (src(rd[0].value)[:60] if rd else "nothing"),
+                  key="WIRING/%s._load_instance/timeout" % cname)
+    res.floor("external-state timeout save/load sites", nad, 2)
+
+
+def _last_key(e: ast.AST) -> Optional[str]:
+    return const_str(e.slice) if isinstance(e, ast.Subscript) else None
+
 
 # ---------------------------------------------------------------------------
 # C16 - instance isolation (ownership)
